@@ -200,6 +200,7 @@ pub fn run(ctx: &Ctx) -> Outcome {
     let cfg = TapeCfg::new(ctx, 3000, 150_000, 200);
     out.shards = cfg.shards;
     out.absorb(tape_search(ctx, "main", &cfg, check, describe));
+    out.assumptions.push("the IN prompt is the literal text \"Input character: \" (the property says that IN prints its prompt without giving the text; the wording of the pinned OS image is taken as the contract)".into());
     out.essential = ["GETC:real", "GETC:virtual", "OUT:real", "PUTS:virtual", "PUTS:real", "IN:virtual", "IN:real", "PUTSP:real", "PUTSP:virtual", "HALT:real", "HALT:virtual", "PUTSP-odd-length", "empty-string", "GETC:keys-arrive-while-waiting", "IN:keys-arrive-while-waiting"].iter().map(|s| s.to_string()).collect();
     out
 }
